@@ -8,6 +8,7 @@ from __future__ import unicode_literals
 
 import collections
 import logging
+import os
 import sys
 
 import kazoo
@@ -80,7 +81,7 @@ class PresenceResourceService(BaseResourceServiceImpl):
                 _LOGGER.info('Waiting to expire: %s', path)
                 return None
 
-            self.presence[app_name][path] = rsrc_id
+            self._claim(app_name, path, rsrc_id)
 
             # Register endpoints.
             for endpoint in rsrc_data.get('endpoints', []):
@@ -97,7 +98,7 @@ class PresenceResourceService(BaseResourceServiceImpl):
                     _LOGGER.info('Waiting to expire: %s', path)
                     return None
 
-                self.presence[app_name][path] = rsrc_id
+                self._claim(app_name, path, rsrc_id)
 
             # Register identity.
             identity_group = rsrc_data.get('identity_group')
@@ -111,7 +112,7 @@ class PresenceResourceService(BaseResourceServiceImpl):
                     _LOGGER.info('Waiting to expire: %s', path)
                     return None
 
-                self.presence[app_name][path] = rsrc_id
+                self._claim(app_name, path, rsrc_id)
 
         return {}
 
@@ -134,6 +135,31 @@ class PresenceResourceService(BaseResourceServiceImpl):
                 del self.presence[app_name]
 
         return True
+
+    def _request_time(self, rsrc_id):
+        """Time the request was made (-1 if the request is gone)."""
+        if self._service_rsrc_dir is None:
+            return -1
+        try:
+            return os.lstat(
+                os.path.join(self._service_rsrc_dir, rsrc_id)
+            ).st_mtime_ns
+        except OSError:
+            return -1
+
+    def _claim(self, app_name, path, rsrc_id):
+        """Record that the path is registered for the request.
+
+        Requests are (re)evaluated in an order unrelated to their age - on
+        service restart, or when a waiting request is retried. A path that is
+        already registered for a newer container of the same app stays with
+        that container, so that the cleanup of the old one does not unregister
+        it.
+        """
+        owner = self.presence[app_name].get(path)
+        if (owner is None or owner == rsrc_id or
+                self._request_time(owner) <= self._request_time(rsrc_id)):
+            self.presence[app_name][path] = rsrc_id
 
     def _watch(self, rsrc_id, path):
         """Retry request when path is deleted."""
